@@ -192,6 +192,10 @@ struct Restrictions {
     prefer_stmt: bool,
 }
 
+/// Binding power of the operand of a unary operator: above every binary operator and `=`,
+/// below `**`.
+const UNARY_BP: u8 = 14;
+
 #[derive(Debug)]
 enum Associativity {
     Left,
@@ -207,7 +211,8 @@ enum Associativity {
 ///
 /// Returns (binding power : u8, operator : SyntaxKind, associativity : Associativity)
 /// The order is that of the OpenQASM 3 grammar, loosest first: `||`, `&&`, `|`, `^`, `&`,
-/// equality, comparison, shifts, additive, multiplicative.
+/// equality, comparison, shifts, additive, multiplicative, (unary operators), power; the
+/// power operator is right associative.
 /// Look at canonical example: `+` has bp 11 and `*` has bp 12.
 #[rustfmt::skip]
 fn current_op(p: &Parser<'_>) -> (u8, SyntaxKind, Associativity) {
@@ -239,7 +244,7 @@ fn current_op(p: &Parser<'_>) -> (u8, SyntaxKind, Associativity) {
         T![+] if p.at(T![+=])  => (1,  T![+=],  Right),
         // `++` is the concatenation op and should have some low value for bp.
         T![+] if p.at(T![++])  => (2,  T![++],  Left),
-        T![*] if p.at(T![**])  => (7,  T![**],  Left),
+        T![*] if p.at(T![**])  => (15, T![**],  Right),
         T![+]                  => (11, T![+],   Left),
         T![^] if p.at(T![^=])  => (1,  T![^=],  Right),
         T![^]                  => (6,  T![^],   Left),
@@ -358,8 +363,9 @@ fn lhs(p: &mut Parser<'_>, r: Restrictions) -> Option<(CompletedMarker, BlockLik
             return Some((cm, block_like));
         }
     };
-    // parse the interior of the unary expression
-    expr_bp(p, None, r, 255);
+    // Parse the interior of the unary expression. Only the power operator binds tighter
+    // than a unary operator: `-a ** b` is `-(a ** b)`.
+    expr_bp(p, None, r, UNARY_BP);
     let cm = m.complete(p, kind);
     Some((cm, BlockLike::NotBlock))
 }
